@@ -2,6 +2,7 @@
 
 from __future__ import annotations
 
+import copy
 import hashlib
 import os
 import threading
@@ -23,7 +24,7 @@ RULE = (
     "charge} x {fits, npy} (+ jpg for image) and optionally a custom_dir_name; the wall clock of pyxel.outputs is replaced by "
     "a harness-owned clock whose timestamps are generated (equal or increasing), some starts run concurrently in threads "
     "released by a barrier, and the parent folder is pre-populated with directories and a plain file carrying the next "
-    "candidate names and with foreign files. Oracle: every start gets a folder that did not exist before and is distinct; a "
+    "candidate names and with foreign files. A quarter of the sequential starts are started a second time on the same objects after their save list was replaced. Oracle: every start gets a folder that did not exist before and is distinct; a "
     "content hash of everything that pre-existed is unchanged; every reported file exists and - for fits/npy - reads back "
     "bit-identical to the bucket of the run with the same label; reported files = buckets x formats x runs, no duplicates. "
     "Part 'legacy_exposure': pyxel.exposure_mode with 1..14 readouts and a save list over {pixel, signal, image} x {npy, fits, txt}: exactly one "
@@ -49,6 +50,10 @@ def starts(draw):
          "tick": draw(st.integers(0, 2)), "level0": draw(st.integers(1, 30)),
          # a raw unsigned 16-bit FITS frame is loaded first and its header kept on the detector (include_header: true)
          "raw_header": draw(st.sampled_from([False, False, False, True]))}
+    if draw(st.sampled_from([False, False, False, True])):
+        # the same configuration objects are started a second time after the save list of their outputs object was replaced
+        b2 = draw(st.lists(st.sampled_from(BUCKETS), min_size=1, max_size=2, unique=True))
+        s["again_save"] = [{f"detector.{b}.array": draw(st.lists(st.sampled_from(["fits", "npy"]), min_size=1, max_size=2, unique=True))} for b in b2]
     if kind != "exposure":
         s["levels"] = draw(st.lists(st.integers(1, 40), min_size=1, max_size=3, unique=True))
         s["temps"] = draw(st.one_of(st.none(), st.lists(st.sampled_from([150.0, 250.0]), min_size=1, max_size=2, unique=True)))
@@ -267,6 +272,19 @@ def body(case, rec):
                 f = _check_start(i + k, eff, cfgs[k], results[k], listing_before, rec)
                 if f is not None:
                     folders.append(str(f.resolve()))
+            if len(group) == 1 and group[0].get("again_save") and errs[0] is None and cfgs[0] is not None:
+                rec.cls("second_start_of_the_same_objects_with_another_save_list")
+                listing_before = {p.name for p in parent.iterdir()}
+                res2, err2 = None, None
+                try:
+                    cfgs[0].mode.outputs.save_data_to_file = copy.deepcopy(group[0]["again_save"])
+                    res2 = pyx.run(cfgs[0], with_inherited_coords=True)
+                except Exception as exc:  # noqa: BLE001
+                    err2 = exc
+                if rec.check(err2 is None, "start_failed", f"start {i} again with save list {group[0]['again_save']}: {err2!r}"[:300]):
+                    f = _check_start(i, dict(group[0], save=group[0]["again_save"]), cfgs[0], res2, listing_before, rec)
+                    if f is not None:
+                        folders.append(str(f.resolve()))
             i += len(group)
         rec.check(len(folders) == len(set(folders)), "two_starts_share_a_folder", f"{folders}")
         after = _tree_hash(parent)
